@@ -23,7 +23,12 @@
  *        "rv=<n> ## st=<hc><ef><ab> used=<k> err=<class>"     (hswrite/hsread: tls_handshake, then tls_write/
  *        tls_read on the same context: "rv=<handshake>,<io> ## ...")
  *
- *   hs <k=v>...      one complete session over an AF_UNIX socketpair, see do_hs().  Optional noise=<0..255>:
+ *   hs <k=v>...      one complete session over an AF_UNIX socketpair, see do_hs().
+ *                    Optional rc=<1|2> + a<field>=..: the SAME client and server contexts are first configured with
+ *                    another configuration A (acca asca asvc avc avn avt asvt acp asp aciph adepth akp), rc=2
+ *                    also attempts a session under A, closes it and calls tls_reset; then they are configured with
+ *                    the configuration proper.  The outcome must be that of the last configuration alone.
+ *                    Optional noise=<0..255>:
  *                    before each scheduler step, with probability noise/256, an UNRELATED library call that
  *                    is (correctly) rejected is made in the same thread on scratch objects -- bogus cipher
  *                    string, bogus curve, missing key file, missing CA file -- which leaves entries in
@@ -615,7 +620,7 @@ static int g_debug;
 static char g_tmpdir[256];
 static long g_cutread = -99;
 static long st_sessions, st_est, st_steps, st_wants, st_calls, st_bytes, st_cutread0, st_cutreaderr, st_partial;
-static long st_noise, st_noise_dirty, st_refused, st_refused_calls;
+static long st_noise, st_noise_dirty, st_refused, st_refused_calls, st_presessions, st_reconfigured;
 
 enum { PH_HS, PH_REFUSED, PH_PING1, PH_PING2, PH_DATA, PH_DRAIN, PH_CLOSE, PH_CUTREAD, PH_DONE, PH_FAILED };
 
@@ -907,6 +912,9 @@ static void do_noise(unsigned kind)
 
 struct hs_par {
 	int ciph, cp, sp, vc, vn, vt, svc, svt, cca, sca, cam, sam, kpm, first, cut, bias, burst, noise;
+	/* reconfigure family: rc=1 the same contexts are configured with A, then with B (= the fields above);
+	 * rc=2 configured with A, a session attempt is made and closed, tls_reset, configured with B */
+	int rc, aciph, acp, asp, avc, avn, avt, asvc, asvt, acca, asca, adepth, akp, depth;
 	const char *scert, *ccert, *host;
 	uint64_t seed;
 	long buf, n, chunk;
@@ -951,10 +959,64 @@ static int set_keypair(struct tls_config *cfg, struct certent *ce, int via_file,
 	return tls_config_set_keypair_mem(cfg, (uint8_t *)ce->cert.p, ce->cert.n, (uint8_t *)ce->key.p, ce->key.n);
 }
 
+static const char *ciph_str(int k)
+{
+	return k == 1 ? "DEFAULT:@SECLEVEL=0" : k == 2 ? "AES128-SHA" : NULL;
+}
+
+/* one client and one server tls_config from the given settings; returns 0 when every setter succeeded */
+static int build_cfgs(struct tls_config **cc, struct tls_config **sc, int ciph, int cp, int sp, int vc, int vn,
+		      int vt, int svc, int svt, int cca, int sca, int cam, int sam, int kpm, int depth,
+		      struct certent *sce, struct certent *cce, int slot)
+{
+	*cc = tls_config_new(); *sc = tls_config_new();
+	if (!*cc || !*sc) return -1;
+	tls_config_set_protocols(*cc, cp);
+	tls_config_set_protocols(*sc, sp);
+	if (ciph_str(ciph)) {
+		if (tls_config_set_ciphers(*cc, ciph_str(ciph)) != 0) return -1;
+		if (tls_config_set_ciphers(*sc, ciph_str(ciph)) != 0) return -1;
+	}
+	if (set_ca(*cc, cca, cam) != 0 || set_ca(*sc, sca, sam) != 0) return -1;
+	if (!vc) tls_config_insecure_noverifycert(*cc);
+	if (!vn) tls_config_insecure_noverifyname(*cc);
+	if (!vt) tls_config_insecure_noverifytime(*cc);
+	if (!svt) tls_config_insecure_noverifytime(*sc);
+	if (svc == 1) tls_config_verify_client(*sc);
+	if (svc == 2) tls_config_verify_client_optional(*sc);
+	if (depth >= 0) { tls_config_set_verify_depth(*cc, depth); tls_config_set_verify_depth(*sc, depth); }
+	if (set_keypair(*sc, sce, kpm, slot) != 0) return -1;
+	if (cce && set_keypair(*cc, cce, kpm, slot + 1) != 0) return -1;
+	return 0;
+}
+
+/* a session attempt under the first configuration: handshake both ends in lock step, close, forget.
+ * Whatever it does is irrelevant for the outcome of the session that follows the reconfiguration. */
+static void pre_session(struct tls *cli, struct tls *srv, const char *host)
+{
+	int sp[2], i, cd = 0, sd = 0;
+	struct tls *conn = NULL;
+	if (socketpair(AF_UNIX, SOCK_STREAM, 0, sp) != 0) return;
+	for (i = 0; i < 2; i++) fcntl(sp[i], F_SETFL, fcntl(sp[i], F_GETFL) | O_NONBLOCK);
+	if (tls_connect_fds(cli, sp[0], sp[0], host) == 0 && tls_accept_fds(srv, &conn, sp[1], sp[1]) == 0) {
+		for (i = 0; i < 200 && !(cd && sd); i++) {
+			int rv;
+			if (!cd) { rv = tls_handshake(cli); if (rv == 0 || rv == -1) cd = 1; }
+			if (!sd) { rv = tls_handshake(conn); if (rv == 0 || rv == -1) sd = 1; }
+		}
+		(void)tls_close(cli);
+		(void)tls_close(conn);
+	}
+	usual_tls_free(conn);
+	close(sp[0]); close(sp[1]);
+	st_presessions++;
+}
+
 static void do_hs(char **w, int n)
 {
 	struct hs_par P;
 	struct ep C, S;
+	struct tls_config *cfgA_c = NULL, *cfgA_s = NULL;
 	const char *v;
 	long lv;
 	int sp[2] = { -1, -1 };
@@ -979,6 +1041,15 @@ static void do_hs(char **w, int n)
 	GETI("bias", P.bias, 1, 255); GETI("burst", P.burst, 1, 64);
 	GETI("buf", P.buf, 0, 1 << 20); GETI("n", P.n, 0, 1 << 26); GETI("chunk", P.chunk, 1, 65536);
 #undef GETI
+#define OPTI(k, dst, lo, hi, dflt) do { dst = dflt; if (kv_get(w + 1, n - 1, k, &v)) { if (!parse_int(v, &lv) || lv < (lo) || lv > (hi)) goto bad; dst = lv; } } while (0)
+	OPTI("rc", P.rc, 0, 2, 0); OPTI("depth", P.depth, -1, 100, -1);
+	OPTI("aciph", P.aciph, 0, 2, 0); OPTI("acp", P.acp, 0, 30, 24); OPTI("asp", P.asp, 0, 30, 24);
+	OPTI("avc", P.avc, 0, 1, 1); OPTI("avn", P.avn, 0, 1, 1); OPTI("avt", P.avt, 0, 1, 1);
+	OPTI("asvc", P.asvc, 0, 2, 0); OPTI("asvt", P.asvt, 0, 1, 1);
+	OPTI("acca", P.acca, 1, 2, 1); OPTI("asca", P.asca, 1, 2, 1);
+	OPTI("adepth", P.adepth, -1, 100, -1); OPTI("akp", P.akp, 0, 1, 0);
+#undef OPTI
+	if ((P.acp & 1) || (P.asp & 1)) goto bad;
 	if (kv_get(w + 1, n - 1, "noise", &v)) {
 		if (!parse_int(v, &lv) || lv < 0 || lv > 255) goto bad;
 		P.noise = lv;
@@ -996,27 +1067,33 @@ static void do_hs(char **w, int n)
 
 	/* ---- configs */
 	stage = "config";
-	C.cfg = tls_config_new(); S.cfg = tls_config_new();
-	if (!C.cfg || !S.cfg) goto setup_fail;
-	tls_config_set_protocols(C.cfg, P.cp);
-	tls_config_set_protocols(S.cfg, P.sp);
-	if (P.ciph) {
-		if (tls_config_set_ciphers(C.cfg, "DEFAULT:@SECLEVEL=0") != 0) goto setup_fail;
-		if (tls_config_set_ciphers(S.cfg, "DEFAULT:@SECLEVEL=0") != 0) goto setup_fail;
-	}
-	if (set_ca(C.cfg, P.cca, P.cam) != 0 || set_ca(S.cfg, P.sca, P.sam) != 0) goto setup_fail;
-	if (!P.vc) tls_config_insecure_noverifycert(C.cfg);
-	if (!P.vn) tls_config_insecure_noverifyname(C.cfg);
-	if (!P.vt) tls_config_insecure_noverifytime(C.cfg);
-	if (!P.svt) tls_config_insecure_noverifytime(S.cfg);
-	if (P.svc == 1) tls_config_verify_client(S.cfg);
-	if (P.svc == 2) tls_config_verify_client_optional(S.cfg);
-	if (set_keypair(S.cfg, sce, P.kpm, 0) != 0) goto setup_fail;
-	if (cce && set_keypair(C.cfg, cce, P.kpm, 1) != 0) goto setup_fail;
+	if (build_cfgs(&C.cfg, &S.cfg, P.ciph, P.cp, P.sp, P.vc, P.vn, P.vt, P.svc, P.svt, P.cca, P.sca,
+		       P.cam, P.sam, P.kpm, P.depth, sce, cce, 0) != 0) goto setup_fail;
 
 	stage = "ctx";
 	C.ctx = tls_client(); S.base = tls_server();
 	if (!C.ctx || !S.base) goto setup_fail;
+	if (P.rc) {
+		/* the first configuration A: other CA sets, verify modes, protocols, cipher list, depth, keypair */
+		struct certent *asce = sce, *acce = cce;
+		stage = "config-A";
+		if (P.akp) {
+			asce = get_cert("0:v:s:6f6c642e6578616d706c65:d6f6c642e6578616d706c65");
+			acce = get_cert("0:v:c:6f6c64636c69656e74:-");
+			if (!asce || !acce) goto setup_fail;
+		}
+		if (build_cfgs(&cfgA_c, &cfgA_s, P.aciph, P.acp, P.asp, P.avc, P.avn, P.avt, P.asvc, P.asvt,
+			       P.acca, P.asca, !P.cam, !P.sam, P.kpm, P.adepth, asce, acce, 2) != 0) goto setup_fail;
+		stage = "configure-A";
+		if (tls_configure(C.ctx, cfgA_c) != 0) goto setup_fail;
+		if (tls_configure(S.base, cfgA_s) != 0) goto setup_fail;
+		if (P.rc == 2) {
+			pre_session(C.ctx, S.base, host);
+			tls_reset(C.ctx);
+			tls_reset(S.base);
+		}
+		st_reconfigured++;
+	}
 	stage = "configure-client";
 	if (tls_configure(C.ctx, C.cfg) != 0) goto setup_fail;
 	stage = "configure-server";
@@ -1157,6 +1234,7 @@ cleanup:
 	for (i = 0; i < 2; i++) { free(C.wbuf[i]); free(S.wbuf[i]); }
 	usual_tls_free(C.ctx); usual_tls_free(S.ctx); usual_tls_free(S.base);
 	cfg_free(C.cfg); cfg_free(S.cfg);
+	cfg_free(cfgA_c); cfg_free(cfgA_s);
 	if (sp[0] >= 0) close(sp[0]);
 	if (sp[1] >= 0) close(sp[1]);
 	free(host);
@@ -1200,9 +1278,10 @@ int main(int argc, char **argv)
 				"\"tls_calls\": %ld, \"bytes_received\": %ld, \"partial_writes\": %ld, "
 				"\"cut_read_0\": %ld, \"cut_read_err\": %ld, \"certs_generated\": %d, "
 				"\"noise_calls\": %ld, \"noise_calls_leaving_error_queue_dirty\": %ld, "
-				"\"refused_endpoints\": %ld, \"io_calls_after_refusal\": %ld}\n",
+				"\"refused_endpoints\": %ld, \"io_calls_after_refusal\": %ld, "
+				"\"sessions_after_reconfigure\": %ld, \"pre_sessions_then_reset\": %ld}\n",
 				st_sessions, st_est, st_steps, st_wants, st_calls, st_bytes, st_partial,
-				st_cutread0, st_cutreaderr, g_ncerts, st_noise, st_noise_dirty, st_refused, st_refused_calls);
+				st_cutread0, st_cutreaderr, g_ncerts, st_noise, st_noise_dirty, st_refused, st_refused_calls, st_reconfigured, st_presessions);
 			fclose(f);
 		}
 	}
